@@ -74,69 +74,67 @@ CLIENT_STATES = ["first_flight", "after_sh", "after_ee", "after_cert", "after_cv
                  "local_key_update", "close_pending", "closing", "draining"]
 DEAD = ("closing", "draining")
 # catalogue sizes differ a lot between families; `parts` slices a catalogue, `n` caps a slice
-QUICK = {"raw": (6, 420), "mut": (3, 320), "frames": (8, 520), "tls": (3, 420), "hist": (1, None)}
-THOROUGH = {"raw": (1, None), "mut": (1, None), "frames": (1, None), "tls": (1, None), "hist": (1, None)}
+QUICK = {"raw": (4, 600), "mut": (3, 350), "frames": (3, 520), "tls": (1, None), "hist": (1, None)}
+FAMS = ("hist", "tls", "frames", "raw", "mut")
 
 
 def plan(tier, seed):
     rnd = random.Random(seed)
-    batches = []
-    idx = 0
-    table = QUICK if tier == "quick" else THOROUGH
+    jobs = []
 
-    def add(role, state, opts, fam, parts, n, tag="default"):
-        nonlocal idx
-        if tier == "quick":
-            part_list = [(seed * 7 + idx) % parts]
-        else:
-            part_list = list(range(parts))
-        for part in part_list:
-            batches.append({"gen": "cases", "role": role, "state": state, "opts": opts, "optname": tag, "fam": fam, "seed": seed * 1000003 + idx,
-                            "n": n, "part": part, "parts": parts})
-            idx += 1
+    def job(role, state, opts, tag, fam, parts, part, n):
+        jobs.append({"role": role, "state": state, "opts": opts, "optname": tag, "fam": fam, "seed": seed * 1000003 + len(jobs) + 1,
+                     "n": n, "part": part, "parts": parts})
 
-    for role, states in (("server", SERVER_STATES), ("client", CLIENT_STATES)):
-        for state in states:
-            for fam in ("hist", "tls", "frames", "raw", "mut"):
-                parts, n = table[fam]
+    all_states = [("server", s) for s in SERVER_STATES] + [("client", s) for s in CLIENT_STATES]
+    if tier == "quick":
+        for role, state in all_states:
+            for fam in FAMS:
+                parts, n = QUICK[fam]
                 if state in DEAD:
-                    # receive_datagram returns at once in these states: keep a thin slice
                     if fam in ("tls", "hist"):
                         continue
-                    parts, n = (parts * 4, 150) if tier == "quick" else (4, 600)
-                    if tier != "quick":
-                        batches.append({"gen": "cases", "role": role, "state": state, "opts": {}, "optname": "default", "fam": fam,
-                                        "seed": seed * 1000003 + idx, "n": n, "part": 0, "parts": parts})
-                        idx += 1
+                    parts, n = parts * 4, 150  # receive_datagram returns at once in these states: thin slice
+                job(role, state, O_DEFAULT, "default", fam, parts, (seed + len(jobs)) % parts, n)
+        combos = [(r, s, f) for r, s in all_states if s not in DEAD for f in FAMS]
+        rnd.shuffle(combos)
+        ci = 0
+        for tag, opts in OPT_VARIANTS:
+            for _ in range(6):
+                role, state, fam = combos[ci % len(combos)]
+                ci += 1
+                parts, n = QUICK[fam]
+                if fam == "tls":
+                    parts, n = 3, None
+                job(role, state, opts, tag, fam, parts, rnd.randrange(parts), n)
+        per_batch = 3
+    else:
+        for tag, opts in [("default", O_DEFAULT)] + OPT_VARIANTS:
+            for role, state in all_states:
+                for fam in FAMS:
+                    if state in DEAD:
+                        if fam in ("tls", "hist") or tag != "default":
+                            continue
+                        job(role, state, opts, tag, fam, 4, rnd.randrange(4), 800)
                         continue
-                if tier == "thorough" and fam in ("raw", "frames", "tls", "mut"):
-                    # split big catalogues into several batches
-                    k = {"raw": 6, "frames": 8, "tls": 3, "mut": 2}[fam]
+                    k = {"raw": 3, "frames": 2, "tls": 1, "mut": 1, "hist": 1}[fam]
                     for part in range(k):
-                        batches.append({"gen": "cases", "role": role, "state": state, "opts": {}, "optname": "default", "fam": fam,
-                                        "seed": seed * 1000003 + idx, "n": None, "part": part, "parts": k})
-                        idx += 1
+                        job(role, state, opts, tag, fam, k, part, None)
+        # further seeds for the parts that depend on random bytes
+        for rep in range(2):
+            for role, state in all_states:
+                if state in DEAD:
                     continue
-                add(role, state, O_DEFAULT, fam, parts, n)
-    # option variants on a rotating subset of (state, family)
-    combos = [(r, s, f) for r, ss in (("server", SERVER_STATES), ("client", CLIENT_STATES)) for s in ss if s not in DEAD for f in ("tls", "frames", "raw", "hist", "mut")]
-    rnd.shuffle(combos)
-    per = 6 if tier == "quick" else 40
-    ci = 0
-    for tag, opts in OPT_VARIANTS:
-        for _ in range(per):
-            role, state, fam = combos[ci % len(combos)]
-            ci += 1
-            parts, n = QUICK[fam]
-            if tier == "thorough":
-                parts, n = max(1, parts // 2), (None if n is None else n * 3)
-            batches.append({"gen": "cases", "role": role, "state": state, "opts": opts, "optname": tag, "fam": fam, "seed": seed * 1000003 + idx,
-                            "n": n, "part": rnd.randrange(parts), "parts": parts})
-            idx += 1
+                for fam in ("raw", "mut"):
+                    job(role, state, O_DEFAULT, "default", fam, 2, rep, None)
+        per_batch = 2
+    rnd.shuffle(jobs)
+    batches = []
+    for i in range(0, len(jobs), per_batch):
+        batches.append({"gen": "multi", "jobs": jobs[i: i + per_batch], "seed": seed * 1000003 + i})
     # hostile-certificate handshakes (genuine server with a hostile certificate, client victim)
-    for i, cert in enumerate(CERT_KINDS):
-        batches.append({"gen": "certs", "cert": cert, "seed": seed * 1000003 + idx})
-        idx += 1
+    for i in range(0, len(CERT_KINDS), 7):
+        batches.append({"gen": "certs", "certs": CERT_KINDS[i: i + 7], "seed": seed * 1000003 + 900000 + i})
     rnd.shuffle(batches)
     return batches
 
@@ -190,7 +188,7 @@ def _state_name(conn):
     return conn._state.name
 
 
-def run_desc(st, d, lib, gen):
+def run_desc(st, d, lib, gen, full_settle=True):
     """Deliver one descriptor to st (mutates st). Returns dict(outcome, depth, live, raised=ApiRaised|None, where)."""
     from ..simnet import ApiRaised
 
@@ -211,7 +209,14 @@ def run_desc(st, d, lib, gen):
             for dg, addr in steps:
                 drv.receive(dg, addr)
                 depth = max(depth, lib.PROBES.depth())
-        drv.settle(200, 5.0)
+        sent_now = drv.sent
+        quiet = depth < 4 and len(drv.events) == ev0 and sent_now == sent0 and drv.terminated is None
+        if quiet and not full_settle:
+            # nothing observable happened: only fire timers that are already due; the full
+            # 200-step cycle runs once at the end of the input group (see run_cases)
+            drv.settle(2, 0.05)
+        else:
+            drv.settle(200, 5.0)
     except ApiRaised as ar:
         return {"outcome": "raised", "depth": max(depth, lib.PROBES.depth()), "live": live, "raised": ar}
     depth = max(depth, lib.PROBES.depth())
@@ -221,7 +226,7 @@ def run_desc(st, d, lib, gen):
         outcome = "closing"
     elif len(drv.events) > ev0:
         outcome = "events"
-    elif drv.sent > sent0:
+    elif sent_now > sent0:
         outcome = "replied"
     else:
         outcome = "ignored"
@@ -314,7 +319,7 @@ def run_cases(batch, res, lib, gen):
             i += 1
             signal.setitimer(signal.ITIMER_REAL, CASE_WATCHDOG_S)
             try:
-                r = run_desc(st, d, lib, gen)
+                r = run_desc(st, d, lib, gen, full_settle=group_max == 1)
             except CaseTimeout:
                 res.count("obs_watchdog_possible_hang")
                 res.inconclusive.append("watchdog: %s/%s %s %s did not finish in %ds" % (role, state, fam, d["kind"], CASE_WATCHDOG_S))
@@ -334,6 +339,7 @@ def run_cases(batch, res, lib, gen):
             res.count("finish_runs")
             signal.setitimer(signal.ITIMER_REAL, CASE_WATCHDOG_S)
             try:
+                st.drv.settle(200, 5.0)
                 st.drv.finish()
             except ApiRaised as ar:
                 viol = (ar, "finish")
@@ -374,11 +380,13 @@ def run_cases(batch, res, lib, gen):
             report(res, batch, seq, ar2, sig2, phase2, "confirmed on fresh state")
         elif fidelity_budget and outcomes:
             fidelity_budget -= 1
+            SeededUrandom(batch["seed"]).install()
             fresh = lib.prepare(role, state, opts, batch["seed"])
             out2 = []
             for d in seq:
-                out2.append(run_desc(fresh, d, lib, gen)["outcome"])
+                out2.append(run_desc(fresh, d, lib, gen, full_settle=group_max == 1)["outcome"])
             res.count("copy_fidelity_checked")
+            SeededUrandom(batch["seed"] + i).install()
             if out2 != outcomes:
                 res.count("obs_copy_fidelity_mismatch")
                 res.inconclusive.append("copy fidelity: outcomes on copy %r vs fresh %r (%s/%s %s)" % (outcomes[:4], out2[:4], role, state, fam))
@@ -429,7 +437,7 @@ def make_cert(kind):
     cn = "localhost"
     sans = [x509.DNSName("localhost")]
     if kind == "many-sans":
-        sans = [x509.DNSName("host-%04d.a-rather-long-domain-name.example" % i) for i in range(400)]
+        sans = [x509.DNSName("host-%04d.a-rather-long-domain-name.example" % i) for i in range(120)]
     elif kind == "long-san":
         sans = [x509.DNSName(".".join(["l" * 60] * 4))] * 1 + [x509.DNSName("x%d." % i + ".".join(["m" * 60] * 3)) for i in range(8)]
     elif kind == "expired":
@@ -485,8 +493,13 @@ def run_certs(batch, res, lib, gen):
         for rnd_ in range(6):
             out = drv.transmit()
             g.now = drv.now
-            g.deliver("server", out)
-            back = g.emit("server")
+            try:
+                g.deliver("server", out)
+                back = g.emit("server")
+            except Exception as exc:  # the *genuine* server cannot present this certificate: not the victim's problem
+                res.count("obs_genuine_server_failed_with_hostile_cert")
+                res.sample({"cert": kind, "genuine_server_error": repr(exc)[:200]})
+                return
             for dg in back:
                 drv.receive(dg)
             if drv.terminated is not None or not back and not out:
@@ -496,7 +509,7 @@ def run_certs(batch, res, lib, gen):
         drv.finish()
     except ApiRaised as ar:
         sig = signature(ar.exc)
-        case = dict(batch)
+        case = {"gen": "certs", "cert": kind, "seed": batch.get("seed", 0)}
         what = "client victim, genuine server with hostile certificate %r: %s() raised %r" % (kind, ar.call, ar.exc)
         w = exc_witness(ar.exc)
         w["api_call"] = ar.call
@@ -527,13 +540,20 @@ def run_batch(batch):
     su.install()
     lib.PROBES.install()
     try:
-        if batch["gen"] == "cases":
+        if batch["gen"] == "multi":
+            for job in batch["jobs"]:
+                t1 = time.process_time()
+                SeededUrandom(job["seed"]).install()
+                run_cases(job, res, lib, gen)
+                res.count("cpu_s_" + job["fam"], round(time.process_time() - t1, 2))
+        elif batch["gen"] == "cases":
             run_cases(batch, res, lib, gen)
             res.count("cpu_s_" + batch["fam"], round(time.process_time() - t0, 2))
         elif batch["gen"] == "replay":
             run_replay(batch, res, lib, gen)
         elif batch["gen"] == "certs":
-            run_certs(batch, res, lib, gen)
+            for kind in batch.get("certs") or [batch["cert"]]:
+                run_certs(dict(batch, cert=kind, certs=None), res, lib, gen)
             res.count("cpu_s_certs", round(time.process_time() - t0, 2))
         else:
             raise ValueError(batch["gen"])
